@@ -47,6 +47,9 @@ def requests():
         Request("src/IO/interfile.cxx", fn=["stir::write_interfile_.*"], files=["/repo/src/IO/interfile.cxx"]),
         Request("src/buildblock/ProjData.cxx", fn=["stir::ProjData::.*", "stir::apply_func"], files=["/repo/src/buildblock/ProjData.cxx"]),
         Request("src/buildblock/ExamInfo.cxx", fn=["stir::ExamInfo::.*"]),
+        # file-local helpers of the two backing stores (whatever they are called)
+        Request(PDFS, fn=["stir::[A-Za-z_0-9]+"], files=["/repo/src/buildblock/ProjDataFromStream\\.cxx"]),
+        Request(PDIM, fn=["stir::[A-Za-z_0-9]+"], files=["/repo/src/buildblock/ProjDataInMemory\\.cxx"]),
     ]
 
 
@@ -728,6 +731,99 @@ def rule_l_whole_data_loops_cover_tof(ctx, unit):
     return n
 
 
+def rule_p_segment_checked_on_entry(ctx, units):
+    """RF1 for the per-segment tables: ProjDataInfo's get_min/max_axial_pos_num(segment) and get_num_axial_poss(segment) index a
+    table without range check (NDEBUG), and the constructors of Viewgram / Sinogram / SegmentBy* call them.  In a public member
+    function of the backing stores, an int PARAMETER that reaches one of those as the segment number must have been tested against
+    get_min_segment_num() / get_max_segment_num() (failure -> error) on every path to that use - directly, or by a call of a helper
+    whose every normal return has made that test (F66: only the address function tested it, after the tables had been read)."""
+    RULE = "C02.p-segment-checked-before-table-lookup"
+    PER_SEG = {"get_min_axial_pos_num", "get_max_axial_pos_num", "get_num_axial_poss"}
+    CTORS = ("stir::Viewgram::Viewgram", "stir::Sinogram::Sinogram", "stir::SegmentByView::SegmentByView", "stir::SegmentBySinogram::SegmentBySinogram")
+    n = 0
+    for u, cls, local in units:
+        fns = {}
+        for f in list(u.functions) + (list(local.functions) if local is not None else []):
+            if f.body is not None and not f.is_dependent:
+                fns.setdefault(f.qn, []).append(f)
+        # helpers: function g with an int parameter q such that at every normal exit q >= X.get_min_segment_num() and q <= X.get_max_segment_num() hold
+        helpers = {}
+        for qn, fl in fns.items():
+            g = fl[0]
+            if not g.cfg_raw or not any(re.fullmatch(r"(const )?int", (p.get("t") or "").strip()) for p in g.params):
+                continue
+            if not any((c.callee or "").endswith("get_min_segment_num") for c in g.calls()):
+                continue
+            gcfg = CFG(g)
+            for j, p in enumerate(g.params):
+                if not re.fullmatch(r"(const )?int", (p.get("t") or "").strip()):
+                    continue
+                pk = "v%d" % p["d"]
+                ok = True
+                exits = gcfg.normal_exit_preds()
+                if not exits:
+                    ok = False
+                for b in exits:
+                    rels = relations(gcfg._edge_facts(b, gcfg.exit, gcfg.must_facts()[b]))  # including the branch taken to the exit
+                    lo = any(a == pk and op == ">=" and b_.endswith("get_min_segment_num()") for a, op, b_ in rels)
+                    hi = any(a == pk and op == "<=" and b_.endswith("get_max_segment_num()") for a, op, b_ in rels)
+                    if not (lo and hi):
+                        ok = False
+                if ok:
+                    helpers.setdefault(qn, set()).add(j)
+        ctx.stats.setdefault("segment_check_helpers", []).extend(sorted(helpers))
+        for qn, fl in sorted(fns.items()):
+            f = fl[0]
+            if f.cls != cls or f.d.get("access", 0) != 0 or not f.cfg_raw:
+                continue
+            ints = {p["d"]: p for p in f.params if re.fullmatch(r"(const )?int", (p.get("t") or "").strip())}
+            if not ints:
+                continue
+            uses = {}
+            for c in f.calls():
+                short = (c.callee or "").split("::")[-1]
+                args = c.call_args()
+                if short in PER_SEG and len(args) == 1:
+                    a = args[0].strip()
+                    if a.k == "DeclRefExpr" and a.get("d") in ints:
+                        uses.setdefault(a.get("d"), []).append(c)
+                elif (c.callee or "") in CTORS:
+                    # (proj_data_info, [view/axial,] segment, tof): the segment is the last but one of the int arguments
+                    ia = [a.strip() for a in args if re.fullmatch(r"(const )?int", (a.strip().type or "").strip()) and not a.strip().get("defarg")]
+                    cand = None
+                    if "Segment" in c.callee and len(ia) >= 1:
+                        cand = ia[0]
+                    elif len(ia) >= 2:
+                        cand = ia[1]
+                    if cand is not None and cand.k == "DeclRefExpr" and cand.get("d") in ints:
+                        uses.setdefault(cand.get("d"), []).append(c)
+            if not uses:
+                continue
+            cfg = CFG(f)
+            for d, cs in sorted(uses.items()):
+                pk = "v%d" % d
+                bad = []
+                for c in cs:
+                    at = c
+                    while at is not None and at.i not in cfg.pos:
+                        at = at.parent
+                    if at is None:
+                        continue
+                    rels = relations(cfg.facts_at(at))
+                    lo = any(a == pk and op == ">=" and b_.endswith("get_min_segment_num()") for a, op, b_ in rels)
+                    hi = any(a == pk and op == "<=" and b_.endswith("get_max_segment_num()") for a, op, b_ in rels)
+                    if lo and hi:
+                        continue
+                    # a dominating call of a checking helper with this parameter
+                    hc = [h for h in f.calls() if h.callee in helpers and h.i in cfg.pos and any(j < len(h.call_args()) and key(h.call_args()[j].strip()) == pk for j in helpers[h.callee])]
+                    if any(cfg.dominates(h, at) and h.i != at.i for h in hc):
+                        continue
+                    bad.append(c)
+                ctx.ob(RULE, f.qn + "/%d" % len(f.params), "param:%s" % ints[d].get("n"), not bad, (bad or cs)[0].where(), ("`%s` is tested against the segment range before it reaches %d per-segment lookup(s)" % (ints[d].get("n"), len(cs))) if not bad else ("`%s` reaches %s at line %d as the segment number without a test against get_min_segment_num()/get_max_segment_num() on every path: the per-segment tables are indexed without range check, so a request outside the index range reads whatever lies next to them instead of being reported" % (ints[d].get("n"), (bad[0].callee or "").split("::")[-1], bad[0].line)))
+                n += 1
+    return n
+
+
 def run(ctx):
     ctx.explanation = (
         "Decides structural necessary conditions of C02 from the source: (a) all five bin coordinates are range-checked "
@@ -746,7 +842,7 @@ def run(ctx):
     ]
     reqs = requests()
     ctx.ex.prefetch(reqs)
-    pdfs, pdim, pdfs_omp, ifile, hdr, hdrspect, kwu, helpers, pdbase, examinfo = (ctx.ex.get(r) for r in reqs)
+    pdfs, pdim, pdfs_omp, ifile, hdr, hdrspect, kwu, helpers, pdbase, examinfo, pdfs_local, pdim_local = (ctx.ex.get(r) for r in reqs)
     if pdfs is None or pdim is None:
         return
     byname = {}
@@ -767,6 +863,8 @@ def run(ctx):
             continue
         rule_b_tof_stride_def(ctx, fns[0], with_elem)
     rule_c_single_address_map(ctx, pdfs, pdim)
+    rule_p_segment_checked_on_entry(ctx, [(pdfs, "stir::ProjDataFromStream", pdfs_local), (pdim, "stir::ProjDataInMemory", pdim_local)])
+    ctx.require_count("C02.p-segment-checked-before-table-lookup", 7)
     rule_k_address_names_the_piece(ctx, [(pdfs, "stir::ProjDataFromStream", "stir::ProjDataFromStream::get_offset"), (pdim, "stir::ProjDataInMemory", "stir::ProjDataInMemory::get_index")])
     ctx.require_count("C02.k-address-names-the-piece", 14)
     if pdbase is not None:
